@@ -431,6 +431,9 @@ func runC20(p *core.Prog, r *core.Report, tier string) {
 						if mc, ok := d.Call.Value.(*ssa.MakeClosure); ok && mc.Fn == f {
 							isDeferred = true
 						}
+						if fv, ok := d.Call.Value.(*ssa.Function); ok && fv == f {
+							isDeferred = true
+						}
 					}
 				})
 				if isDeferred {
@@ -497,6 +500,10 @@ func runC20(p *core.Prog, r *core.Report, tier string) {
 								if mc, ok := gi.Call.Value.(*ssa.MakeClosure); ok && mc.Fn == anc {
 									target = y
 								}
+								// a literal that captures nothing (everything is handed in as arguments) is a plain function value
+								if fv, ok := gi.Call.Value.(*ssa.Function); ok && fv == anc {
+									target = y
+								}
 							}
 						})
 						if target == nil {
@@ -531,8 +538,14 @@ func runC20(p *core.Prog, r *core.Report, tier string) {
 				if !ok {
 					return
 				}
+				var deferredFn ssa.Value
 				if mc, ok := d.Call.Value.(*ssa.MakeClosure); ok {
-					if cf, ok := mc.Fn.(*ssa.Function); ok {
+					deferredFn = mc.Fn
+				} else if fv, ok := d.Call.Value.(*ssa.Function); ok && fv.Parent() != nil {
+					deferredFn = fv
+				}
+				if deferredFn != nil {
+					if cf, ok := deferredFn.(*ssa.Function); ok {
 						for _, op := range core.MapOps(cf) {
 							if op.Kind == "delete" && op.Field == pend {
 								def = x
